@@ -181,15 +181,82 @@ theorem outParamEq_iff (chk : Bool) (x y : Param) :
     · exact Or.inl (by omega)
 
 theorem bindsWf_iff (l : List (Key × Exp)) :
-    bindsWf l = true ↔ (l.map Prod.fst).Nodup ∧ ∀ p ∈ l, p.2.wf = true := by
+    bindsWf l = true ↔ ((nonstar l).map Prod.fst).Nodup ∧ ∀ p ∈ l, p.2.wf = true := by
   simp [bindsWf, nodupKeys_iff]
 
-theorem binds_iff (a b : List (Key × Exp)) (ha : bindsWf a = true) (hb : bindsWf b = true) :
-    matchAll Exp.equal a b = true ↔ semBinds a = semBinds b := by
+theorem mem_of_mem_nonstar {l : List (Key × Exp)} {p : Key × Exp} (h : p ∈ nonstar l) : p ∈ l :=
+  (mem_filter.mp h).1
+
+theorem nonstar_length_le (l : List (Key × Exp)) : (nonstar l).length ≤ l.length :=
+  length_filter_le _ _
+
+theorem lookup_nonstar {k : Key} (hk : k ≠ star) : ∀ b : List (Key × Exp),
+    lookupL k (nonstar b) = lookupL k b
+  | [] => rfl
+  | (k', v) :: r => by
+    by_cases hs : k' = star
+    · subst hs
+      have : (k == star) = false := by simpa using hk
+      simp [nonstar, lookupL, this]
+      exact lookup_nonstar hk r
+    · have hs' : (k' != star) = true := by simpa using hs
+      simp only [nonstar, filter_cons, hs', if_true, lookupL]
+      by_cases hkk : (k == k') = true
+      · simp [hkk]
+      · simp only [hkk, Bool.false_eq_true, if_false]
+        exact lookup_nonstar hk r
+
+/-- the loop of `BindStms.Equals` is the lookup comparison on the non-`*` entries -/
+theorem bindsEq_all (b : List (Key × Exp)) : ∀ a : List (Key × Exp),
+    a.all (fun p => p.1 == star || (lookupL p.1 b).any (fun v' => p.2.equal v')) =
+    (nonstar a).all (fun p => (lookupL p.1 (nonstar b)).any (fun v' => p.2.equal v'))
+  | [] => rfl
+  | (k, v) :: r => by
+    by_cases hs : k = star
+    · subst hs
+      simp [nonstar, all_cons]
+      simpa [nonstar] using bindsEq_all b r
+    · have hs' : (k != star) = true := by simpa using hs
+      have hs'' : (k == star) = false := by simpa using hs
+      simp only [nonstar, filter_cons, hs', if_true, all_cons, hs'', Bool.false_or]
+      rw [show filter (fun p => p.1 != star) b = nonstar b from rfl, lookup_nonstar hs b]
+      congr 1
+      exact bindsEq_all b r
+
+theorem sem_of_bindsEq (a b : List (Key × Exp)) (ha : bindsWf a = true) (hb : bindsWf b = true)
+    (hlen : (nonstar a).length = (nonstar b).length) (h : bindsEq a b = true) :
+    semBinds a = semBinds b := by
   have ha' := (bindsWf_iff a).mp ha
   have hb' := (bindsWf_iff b).mp hb
-  exact matchAll_iff Exp.equal Exp.sem Exp.sem a b ha'.1 hb'.1
-    (fun p hp q hq => exp_equal_iff p.2 q.2 (ha'.2 p hp) (hb'.2 q hq))
+  simp only [bindsEq, Bool.and_eq_true, beq_iff_eq, bindsEq_all] at h
+  have hm : matchAll Exp.equal (nonstar a) (nonstar b) = true := by
+    simp only [matchAll, Bool.and_eq_true, beq_iff_eq]
+    exact ⟨hlen, h.2⟩
+  have := (matchAll_iff Exp.equal Exp.sem Exp.sem (nonstar a) (nonstar b) ha'.1 hb'.1
+    (fun p hp q hq => exp_equal_iff p.2 q.2 (ha'.2 p (mem_of_mem_nonstar hp))
+      (hb'.2 q (mem_of_mem_nonstar hq)))).mp hm
+  simp only [semBinds, this, Prod.mk.injEq, true_and]
+  omega
+
+theorem bindsEq_of_sem (a b : List (Key × Exp)) (ha : bindsWf a = true) (hb : bindsWf b = true)
+    (h : semBinds a = semBinds b) : bindsEq a b = true := by
+  have ha' := (bindsWf_iff a).mp ha
+  have hb' := (bindsWf_iff b).mp hb
+  simp only [semBinds, Prod.mk.injEq] at h
+  have hm := (matchAll_iff Exp.equal Exp.sem Exp.sem (nonstar a) (nonstar b) ha'.1 hb'.1
+    (fun p hp q hq => exp_equal_iff p.2 q.2 (ha'.2 p (mem_of_mem_nonstar hp))
+      (hb'.2 q (mem_of_mem_nonstar hq)))).mpr h.1
+  simp only [matchAll, Bool.and_eq_true, beq_iff_eq] at hm
+  simp only [bindsEq, Bool.and_eq_true, beq_iff_eq, bindsEq_all]
+  refine ⟨?_, hm.2⟩
+  have := nonstar_length_le a
+  have := nonstar_length_le b
+  omega
+
+theorem nonstar_length_of_sem {a b : List (Key × Exp)} (h : semBinds a = semBinds b) :
+    (nonstar a).length = (nonstar b).length := by
+  simp only [semBinds, Prod.mk.injEq] at h
+  simpa using (perm_of_sortK_eq h.1).length_eq
 
 theorem inParams_iff (a b : List (Key × Param)) (ha : nodupKeys a = true) (hb : nodupKeys b = true) :
     matchAll inParamEq a b = true ↔
@@ -226,29 +293,44 @@ theorem mods_equiv_iff (m o : Mods) (hm : m.wf = true) (ho : o.wf = true) :
 
 /-! ### callables and calls -/
 
-theorem lookup_wf : ∀ {T : Tab} {k : Key} {x : Callable}, T.wf = true → lookupL k T = some x → x.wf = true
-  | [], _, _, _, h => by simp [lookupL] at h
-  | (k', y) :: r, k, x, hT, h => by
-    simp only [Tab.wf, all_cons, Bool.and_eq_true] at hT
+theorem lookup_wf : ∀ {T : Tab} (W : Tab) {k : Key} {x : Callable},
+    T.all (fun p => p.2.wfIn W) = true → lookupL k T = some x → x.wfIn W = true
+  | [], _, _, _, _, h => by simp [lookupL] at h
+  | (k', y) :: r, W, k, x, hT, h => by
+    simp only [all_cons, Bool.and_eq_true] at hT
     simp only [lookupL] at h
     by_cases hk : (k == k') = true
     · simp only [hk, if_true, Option.some.injEq] at h
       exact h ▸ hT.1
     · simp only [hk, Bool.false_eq_true, if_false] at h
-      exact lookup_wf (T := r) (by simpa [Tab.wf] using hT.2) h
+      exact lookup_wf (T := r) W hT.2 h
 
 theorem semCallable_ne_missing (s : Call → Sem) (x : Callable) : semCallable s x ≠ .missing := by
   cases x <;> simp [semCallable]
 
-theorem callable_iff (rec : Call → Call → Bool) (sA sB : Call → Sem) (x y : Callable)
-    (hx : x.wf = true) (hy : y.wf = true)
-    (h : ∀ c d : Call, c.wf = true → d.wf = true → (rec c d = true ↔ sA c = sB d)) :
+theorem matchAll_length {V : Type} {eqv : V → V → Bool} {a b : List (Key × V)}
+    (h : matchAll eqv a b = true) : a.length = b.length := by
+  simp only [matchAll, Bool.and_eq_true, beq_iff_eq] at h
+  exact h.1
+
+theorem equivCallable_insLen {rec : Call → Call → Bool} {x y : Callable}
+    (h : equivCallable rec x y = true) : x.insLen = y.insLen := by
+  cases x <;> cases y <;> simp only [equivCallable, Bool.and_eq_true, Bool.false_eq_true] at h
+  · exact matchAll_length h.1.2
+  · exact matchAll_length h.1.1.1
+
+/-- hypotheses about sub-calls: `rec` decides equality of `sA`/`sB` on
+well-formed calls that bind all parameters of their callees -/
+theorem callable_iff (T U : Tab) (rec : Call → Call → Bool) (sA sB : Call → Sem) (x y : Callable)
+    (hx : x.wfIn T = true) (hy : y.wfIn U = true)
+    (h : ∀ c d : Call, c.wf = true → d.wf = true → c.completeIn T = true → d.completeIn U = true →
+      (rec c d = true ↔ sA c = sB d)) :
     equivCallable rec x y = true ↔ semCallable sA x = semCallable sB y := by
   cases x with
   | stage s i o =>
     cases y with
     | stage s' i' o' =>
-      simp only [Callable.wf, Bool.and_eq_true] at hx hy
+      simp only [Callable.wfIn, Bool.and_eq_true] at hx hy
       simp only [equivCallable, semCallable, Bool.and_eq_true, beq_iff_eq, Sem.stage.injEq,
         inParams_iff i i' hx.1 hy.1, outParams_iff false o o' hx.2 hy.2, and_assoc]
     | pipeline i' o' cs' r' => simp [equivCallable, semCallable]
@@ -256,9 +338,9 @@ theorem callable_iff (rec : Call → Call → Bool) (sA sB : Call → Sem) (x y 
     cases y with
     | stage s' i' o' => simp [equivCallable, semCallable]
     | pipeline i' o' cs' r' =>
-      simp only [Callable.wf, Bool.and_eq_true, all_eq_true] at hx hy
-      obtain ⟨⟨⟨⟨hi, ho⟩, hk⟩, hcs⟩, hr⟩ := hx
-      obtain ⟨⟨⟨⟨hi', ho'⟩, hk'⟩, hcs'⟩, hr'⟩ := hy
+      simp only [Callable.wfIn, Bool.and_eq_true, all_eq_true, beq_iff_eq] at hx hy
+      obtain ⟨⟨⟨⟨⟨⟨hi, ho⟩, hk⟩, hcs⟩, hr⟩, hrl⟩, hcc⟩ := hx
+      obtain ⟨⟨⟨⟨⟨⟨hi', ho'⟩, hk'⟩, hcs'⟩, hr'⟩, hrl'⟩, hcc'⟩ := hy
       have hcalls : matchAll rec (keyed cs) (keyed cs') = true ↔
           sortK ((keyed cs).map fun p => (p.1, sA p.2)) = sortK ((keyed cs').map fun p => (p.1, sB p.2)) := by
         apply matchAll_iff rec sA sB _ _ ((nodupKeys_iff _).mp hk) ((nodupKeys_iff _).mp hk')
@@ -266,69 +348,112 @@ theorem callable_iff (rec : Call → Call → Bool) (sA sB : Call → Sem) (x y 
         simp only [keyed, mem_map] at hp hq
         rcases hp with ⟨c, hc, rfl⟩
         rcases hq with ⟨d, hd, rfl⟩
-        exact h c d (hcs c hc) (hcs' d hd)
+        exact h c d (hcs c hc) (hcs' d hd) (hcc c hc) (hcc' d hd)
+      have houts := outParams_iff true o o' ho ho'
       simp only [equivCallable, semCallable, Bool.and_eq_true, Sem.pipeline.injEq,
-        inParams_iff i i' hi hi', outParams_iff true o o' ho ho', binds_iff r r' hr hr', hcalls,
-        and_assoc]
+        inParams_iff i i' hi hi', houts.symm, hcalls.symm]
+      constructor
+      · rintro ⟨⟨⟨h1, h2⟩, h3⟩, h4⟩
+        have hl : (nonstar r).length = (nonstar r').length := by
+          rw [hrl, hrl']; exact matchAll_length h2
+        exact ⟨h1, h2, sem_of_bindsEq r r' hr hr' hl h3, h4⟩
+      · rintro ⟨h1, h2, h3, h4⟩
+        exact ⟨⟨⟨h1, h2⟩, bindsEq_of_sem r r' hr hr' h3⟩, h4⟩
 
 /-- `CallStm.EquivalentTo` (with the second `disabled` lookup reading the *other*
 table) decides equality of the unfolded meaning, at every depth. -/
 theorem equivCall_iff : ∀ (n : Nat) (T U : Tab), T.wf = true → U.wf = true →
-    ∀ c d : Call, c.wf = true → d.wf = true →
+    ∀ c d : Call, c.wf = true → d.wf = true → c.completeIn T = true → d.completeIn U = true →
       (equivCall false n T U c d = true ↔ semCall n T c = semCall n U d)
-  | 0, _, _, _, _, _, _, _, _ => by simp [equivCall, semCall]
-  | n + 1, T, U, hT, hU, c, d, hc, hd => by
+  | 0, _, _, _, _, _, _, _, _, _, _ => by simp [equivCall, semCall]
+  | n + 1, T, U, hT, hU, c, d, hc, hd, hcc, hdc => by
     have ih := equivCall_iff n T U hT hU
     simp only [Call.wf, Bool.and_eq_true] at hc hd
     have hm := mods_equiv_iff c.mods d.mods hc.2 hd.2
     simp only [Mods.sem, Prod.mk.injEq] at hm
-    simp only [equivCall, semCall, Bool.and_eq_true, beq_iff_eq, Sem.call.injEq,
-      binds_iff c.binds d.binds hc.1 hd.1, hm, and_assoc]
-    refine and_congr_right fun _ => and_congr_right fun _ => and_congr_right fun _ =>
-      and_congr_right fun _ => and_congr_right fun _ => ?_
-    cases hx : lookupL c.decId T with
-    | none =>
-      cases hy : lookupL d.decId U with
-      | none => simp
-      | some y =>
-        simp only [Bool.false_eq_true, false_iff]
-        exact fun h => semCallable_ne_missing _ y h.symm
-    | some x =>
-      cases hy : lookupL d.decId U with
+    simp only [equivCall, semCall, Bool.and_eq_true, beq_iff_eq, Sem.call.injEq, hm]
+    -- the callee comparison, and what it implies for the number of bound parameters
+    have hcallee : ((match lookupL c.decId T, lookupL d.decId U with
+        | none, none => true
+        | some x, some y => equivCallable (equivCall false n T U) x y
+        | _, _ => false) = true ↔
+        (match lookupL c.decId T with
+          | none => Sem.missing
+          | some x => semCallable (semCall n T) x) =
+        (match lookupL d.decId U with
+          | none => Sem.missing
+          | some x => semCallable (semCall n U) x)) ∧
+        ((match lookupL c.decId T, lookupL d.decId U with
+        | none, none => true
+        | some x, some y => equivCallable (equivCall false n T U) x y
+        | _, _ => false) = true → c.binds.length = d.binds.length →
+          (nonstar c.binds).length = (nonstar d.binds).length) := by
+      simp only [Call.completeIn] at hcc hdc
+      cases hx : lookupL c.decId T with
       | none =>
-        simp only [Bool.false_eq_true, false_iff]
-        exact semCallable_ne_missing _ x
-      | some y => exact callable_iff _ _ _ x y (lookup_wf hT hx) (lookup_wf hU hy) ih
+        cases hy : lookupL d.decId U with
+        | none =>
+          rw [hx] at hcc; rw [hy] at hdc
+          simp only [beq_iff_eq] at hcc hdc
+          exact ⟨by simp, fun _ hl => by omega⟩
+        | some y =>
+          refine ⟨?_, by simp⟩
+          simp only [Bool.false_eq_true, false_iff]
+          exact fun h => semCallable_ne_missing _ y h.symm
+      | some x =>
+        cases hy : lookupL d.decId U with
+        | none =>
+          refine ⟨?_, by simp⟩
+          simp only [Bool.false_eq_true, false_iff]
+          exact semCallable_ne_missing _ x
+        | some y =>
+          rw [hx] at hcc; rw [hy] at hdc
+          simp only [beq_iff_eq] at hcc hdc
+          refine ⟨callable_iff T U _ _ _ x y (lookup_wf T hT hx) (lookup_wf U hU hy) ih, ?_⟩
+          intro he _
+          rw [hcc, hdc]; exact equivCallable_insLen he
+    constructor
+    · rintro ⟨⟨⟨h1, h2⟩, h3⟩, h4⟩
+      have hl := hcallee.2 h4 (by
+        simp only [bindsEq, Bool.and_eq_true, beq_iff_eq] at h2; exact h2.1)
+      exact ⟨h1, sem_of_bindsEq _ _ hc.1 hd.1 hl h2, h3.1, h3.2.1, h3.2.2, hcallee.1.mp h4⟩
+    · rintro ⟨h1, h2, h3, h4, h5, h6⟩
+      exact ⟨⟨⟨h1, bindsEq_of_sem _ _ hc.1 hd.1 h2⟩, h3, h4, h5⟩, hcallee.1.mpr h6⟩
 
 /-! ### the lock -/
 
-/-- invariant of disciplined runs: the `_lock` file exists iff exactly one process holds it -/
+/-- invariant of disciplined runs (handler registered only after the check): the
+`_lock` file exists iff exactly one process holds it, and only holders are registered -/
 def LockInv (s : LockState) : Prop :=
+  s.registered = s.holders ∧
   (s.lockFile = false → s.holders = []) ∧ (s.lockFile = true → ∃ p, s.holders = [p])
 
 theorem lockInv_init : LockInv lockInit := by simp [LockInv, lockInit]
 
 theorem lockInv_step (s : LockState) (op : LockOp) (hi : LockInv s) (hd : disciplined s op = true) :
-    LockInv (lockStep s op).1 := by
-  obtain ⟨h0, h1⟩ := hi
+    LockInv (lockStep false s op).1 := by
+  obtain ⟨hr, h0, h1⟩ := hi
   cases hl : s.lockFile
   · have hh := h0 hl
     cases op with
-    | lock p => simp [lockStep, hl, LockInv, hh]
+    | lock p => simp [lockStep, hl, LockInv, hh, hr]
     | unlock p => simp [disciplined, hh] at hd
-    | signal p => simp [disciplined, hh] at hd
+    | signal p => simp [lockStep, LockInv, hl, hh, hr]
   · obtain ⟨q, hq⟩ := h1 hl
     cases op with
-    | lock p => simpa [lockStep, hl, LockInv] using ⟨q, hq⟩
+    | lock p => simpa [lockStep, hl, LockInv, hr] using ⟨q, hq⟩
     | unlock p =>
       simp only [disciplined, hq, contains_cons, contains_nil, Bool.or_false, beq_iff_eq] at hd
-      simp [lockStep, LockInv, hq, hd]
+      simp [lockStep, LockInv, hq, hd, hr]
     | signal p =>
-      simp only [disciplined, hq, contains_cons, contains_nil, Bool.or_false, beq_iff_eq] at hd
-      simp [lockStep, LockInv, hq, hd]
+      by_cases hpq : p = q
+      · simp [lockStep, LockInv, hq, hr, hpq]
+      · have hne : (q != p) = true := by simpa using fun h => hpq h.symm
+        have hc : (p == q) = false := by simpa using hpq
+        simp [lockStep, LockInv, hq, hr, hl, hne, hpq]
 
 theorem lockInv_run : ∀ (ops : List LockOp) (s s' : LockState), LockInv s →
-    lockRun s ops = some s' → LockInv s'
+    lockRun false s ops = some s' → LockInv s'
   | [], s, s', hi, h => by simp only [lockRun, Option.some.injEq] at h; exact h ▸ hi
   | op :: r, s, s', hi, h => by
     simp only [lockRun] at h
